@@ -233,6 +233,23 @@ def urlView (j : Json) : Option URLView :=
   if j.isNull then none else
   some { scheme := optStr j "scheme", rawQuery := optStr j "q", requestURI := optStr j "uri", str := optStr j "str" }
 
+def utf8Bytes (s : String) : Fabio.Model.C20Url.Bytes := s.toUTF8.toList.map (·.toNat)
+
+def bytesText (bs : Fabio.Model.C20Url.Bytes) : List Char :=
+  match String.fromUTF8? (ByteArray.mk (bs.map UInt8.ofNat).toArray) with
+  | some s => s.toList
+  | none => "�(invalid UTF-8)".toList
+
+/-- the URL of a `c20.render` event (text fields) rendered by the Lean model of `net/url` -/
+def urlViewModel (j : Json) : Option URLView :=
+  if j.isNull then none else
+  let g (k : String) : Fabio.Model.C20Url.Bytes := utf8Bytes ((j.getObjValAs? String k).toOption.getD "")
+  let u : Fabio.Model.C20Url.URL :=
+    { scheme := g "scheme", host := g "host", path := g "path", rawPath := g "rawpath", rawQuery := g "query",
+      forceQuery := (j.getObjValAs? Bool "forcequery").toOption.getD false, fragment := g "frag" }
+  some { scheme := bytesText u.scheme, rawQuery := bytesText u.rawQuery,
+         requestURI := bytesText (Fabio.Model.C20Url.requestURI u), str := bytesText (Fabio.Model.C20Url.urlString u) }
+
 def intAt (a : Array Json) (i : Nat) : Int := ((a[i]?.getD Json.null).getInt?).toOption.getD 0
 
 def mkEvent (ev env : Json) : Except String Event := do
@@ -251,8 +268,8 @@ def mkEvent (ev env : Json) : Except String Event := do
     hasRequest := !req.isNull
     remoteAddr := optStr req "remote", method := optStr req "method", requestURI := optStr req "uri"
     proto := optStr req "proto", host := optStr req "host", header := hdr
-    requestURL := urlView ((env.getObjVal? "rurl").toOption.getD Json.null)
-    upstreamURL := urlView ((env.getObjVal? "uurl").toOption.getD Json.null)
+    requestURL := urlViewModel ((ev.getObjVal? "rurl").toOption.getD Json.null)
+    upstreamURL := urlViewModel ((ev.getObjVal? "uurl").toOption.getD Json.null)
     upstreamAddr := optStr ev "uaddr", upstreamService := optStr ev "usvc"
     status := (ev.getObjValAs? Int "status").toOption.getD 0
     contentLength := (ev.getObjValAs? Int "size").toOption.getD 0
@@ -381,14 +398,21 @@ def renderH : Handler := fun inp impl => do
     let ssec := (evJ.getObjValAs? Int "ssec").toOption.getD 0
     let sns := (evJ.getObjValAs? Int "sns").toOption.getD 0
     let envOk := envMatchesInstant e esec ens && envMatchesArith e ssec sns esec ens
+    -- Go's net/url on the same URLs (the model's rendering is what `e` carries)
+    let sameView (a b : Option URLView) : Bool := match a, b with
+      | none, none => true
+      | some x, some y => x.scheme == y.scheme && x.rawQuery == y.rawQuery && x.requestURI == y.requestURI && x.str == y.str
+      | _, _ => false
+    let urlOk := sameView e.requestURL (urlView ((env.getObjVal? "rurl").toOption.getD Json.null)) &&
+      sameView e.upstreamURL (urlView ((env.getObjVal? "uurl").toOption.getD Json.null))
     let refs := items.map (refItem e)
     let ref : List Char := (refs.map (·.getD [])).flatten
     let negDur := e.durNs < 0 && names.any (·.startsWith "$response_time")
     let want := String.ofList (ref ++ ['\n'])
     let newline := ref.contains '\n'
     let oneLine := line == want && line == std ++ "\n"
-    let spec := negDur || (oneLine && writes == 1 && !mutated && envOk && refs.all (·.isSome))
-    let tag := if negDur then "neg-duration" else if !envOk then "calendar-mismatch"
+    let spec := negDur || (oneLine && writes == 1 && !mutated && envOk && urlOk && refs.all (·.isSome))
+    let tag := if negDur then "neg-duration" else if !envOk then "calendar-mismatch" else if !urlOk then "url-model-mismatch"
       else if ref.isEmpty then "empty-rendering" else if mutated then "event-mutated"
       else if newline then "newline-in-value" else cls
     return ({ model := m, agree := agree, spec := spec, nontrivial := !negDur && items.any (·.kind != "text"), tag := tag } : Verdict).toJson
@@ -797,7 +821,7 @@ def judge (cfg : Cfg) (items : List RItem) (rq out : Json) : ReqVerdict :=
   let client := fld out "client"
   let cStatus := natAt client "status"
   let nEvents := natAt out "events"
-  let countOk := nEvents == (if evJ.isNull then 0 else 1) && natAt out "writes" == lines.length
+  let countOk := nEvents == (if evJ.isNull then 0 else 1) && natAt out "writes" == nEvents   -- one `Write` per event
   let mk (spec : Bool) (tag : String) : ReqVerdict :=
     { model := model, implView := implView, spec := spec, tag := tag, logged := !evJ.isNull,
       reqid := if called && cfg.requestID != [] then some seenId else none }
